@@ -12,6 +12,8 @@
 #include <pika/modules/thread_manager.hpp>
 #include <pika/mutex.hpp>
 #include <pika/runtime/runtime.hpp>
+#include <pika/runtime/thread_pool_helpers.hpp>
+#include <pika/modules/resource_partitioner.hpp>
 #include <pika/semaphore.hpp>
 #include <pika/thread.hpp>
 #include <pika/threading_base/register_thread.hpp>
@@ -23,6 +25,8 @@
 #include <cstring>
 #include <memory>
 #include <mutex>
+#include <pthread.h>
+#include <time.h>
 #include <string>
 #include <thread>
 #include <vector>
@@ -442,6 +446,33 @@ static bool meet_drop(char const* site, void const*, std::uint64_t a, std::uint6
     return false;
 }
 
+// CPU time of every worker OS thread of the default pool (for the "work is queued but nobody takes it" probe):
+// a poll counts as quiet only if every worker has itself burnt >= 0.5 ms of CPU since the previous quiet poll, so a
+// starved worker on an overloaded machine can never turn into a verdict
+static std::vector<long long> worker_cpu_ns()
+{
+    std::vector<long long> v;
+    auto& p = pika::resource::get_thread_pool("default");
+    for (std::size_t i = 0; i < p.get_os_thread_count(); ++i)
+    {
+        clockid_t cid;
+        struct timespec ts;
+        if (pthread_getcpuclockid(p.get_os_thread_handle(p.get_thread_offset() + i).native_handle(), &cid) != 0 ||
+            clock_gettime(cid, &ts) != 0)
+            v.push_back(-1);
+        else
+            v.push_back(ts.tv_sec * 1000000000LL + ts.tv_nsec);
+    }
+    return v;
+}
+static bool all_workers_advanced(std::vector<long long> const& before, std::vector<long long> const& now)
+{
+    if (before.size() != now.size() || now.empty()) return false;
+    for (std::size_t i = 0; i < now.size(); ++i)
+        if (now[i] < 0 || before[i] < 0 || now[i] - before[i] < 500000LL) return false;
+    return true;
+}
+
 int main(int argc, char** argv)
 {
     if (argc < 5) return 2;
@@ -607,6 +638,34 @@ int main(int argc, char** argv)
             std::this_thread::sleep_for(std::chrono::milliseconds(20));
         }
         else quiet = 0;
+        // second probe: work IS queued (busy != 0) but no task is active, neither the log nor the ledger moves, and every
+        // worker keeps burning CPU in its scheduling loop: nobody takes the queued work (e.g. a queue no worker looks at)
+        {
+            static std::vector<long long> cpu_base;
+            static int starved_quiet = 0;
+            if (busy != 0 && tm.get_thread_count(st::active) == 0 && logsz == last_log && d == last_done)
+            {
+                std::vector<long long> c = worker_cpu_ns();
+                if (cpu_base.empty()) cpu_base = c;
+                else if (all_workers_advanced(cpu_base, c))
+                {
+                    cpu_base = c;
+                    if (++starved_quiet >= 300 && g_done.load() != g_total.load())
+                    {
+                        monitor("queued work is never taken: " + std::to_string(tm.get_thread_count(st::pending)) + " pending / " +
+                            std::to_string(tm.get_thread_count(st::staged)) + " staged task(s), no task active, every worker spinning");
+                        hang = true;
+                        break;
+                    }
+                }
+                std::this_thread::sleep_for(std::chrono::milliseconds(10));
+            }
+            else
+            {
+                starved_quiet = 0;
+                cpu_base.clear();
+            }
+        }
         last_log = logsz;
         last_done = d;
     }
